@@ -1,6 +1,6 @@
 //go:build verif
 
-//verif:bounds RSDP scan: search window of S 16-byte slots (quick 3, thorough 4) with every byte arbitrary (signature, revision, checksum, decoys); table enumeration: root table (RSDT 4-byte or XSDT 8-byte entries) listing E tables (quick 1, thorough 3) of 44 bytes plus optionally a FADT with its DSDT, every byte of every table arbitrary, listing order symbolic
+//verif:bounds RSDP scan: search window of S 16-byte slots (quick 3, thorough 4) with every byte arbitrary (signature, revision, checksum, decoys); table enumeration: root table (RSDT 4-byte or XSDT 8-byte entries) listing E tables (quick 1, thorough 3) of 44 bytes plus optionally a FADT with its DSDT, every byte of every table arbitrary, listing order symbolic; the DSDT alone in its frame: page-aligned, crossing a page boundary, or at the 4 GiB-aligned address 0x200000000 (reachable through the 64-bit pointer only)
 //verif:assumes table lengths in the headers equal the concrete lengths of this layout; listed signatures pairwise distinct; entries point at the layout's table slots; firmware memory at the constant address 0x20000000 (A-ADDR); mapping calls are the repository's own test seams (identity mapping); kfmt.Fprintf is replaced by a one-byte report to the writer
 //verif:override github.com/ProjectSerenity/firefly/kernel/kfmt.Fprintf vfReport
 package acpi
@@ -17,6 +17,7 @@ import (
 )
 
 const vfFwBase = uintptr(0x20000000)
+const vfFwHighBase = uintptr(0x200000000) // low 32 bits zero
 
 // vfReport stands in for kfmt.Fprintf while encoding: every report is one byte on the writer.
 func vfReport(w io.Writer, format string, args ...interface{}) {
@@ -141,10 +142,16 @@ func Verif_C14_enumerate() {
 	_ = vfSeams()
 	// the DSDT slot is alone in its frame: at the start of the second page, or 20 bytes before the end of it
 	// (so that its header and its body cross into the third page)
-	crossing := zzverif.Choice("dsdt-crosses-page", 2) == 1
-	dsdtOff := uintptr(4096)
-	if crossing {
-		dsdtOff = 2*4096 - 20
+	// or, third placement, in a region of its own at a 4 GiB-aligned address (a 64-bit pointer whose low half is zero)
+	place := zzverif.Choice("dsdt-placement", 3)
+	crossing := place == 1
+	dsdtAddr := base + 4096
+	switch place {
+	case 1:
+		dsdtAddr = base + 2*4096 - 20
+	case 2:
+		hi := zzverif.Region("fw-high", vfFwHighBase, vfSlotLen, 1)
+		dsdtAddr = uintptr(unsafe.Pointer(&hi[0]))
 	}
 	useX := zzverif.Choice("xsdt", 2) == 1
 	withFadt := zzverif.Choice("fadt", 2) == 1
@@ -215,18 +222,22 @@ func Verif_C14_enumerate() {
 			}
 		}
 		// each DSDT pointer is either absent (0) or designates the DSDT slot; at least one is present
-		switch zzverif.Choice("dsdtptrs", 3) {
+		ptrs := zzverif.Choice("dsdtptrs", 3)
+		if place == 2 {
+			ptrs = 1 // above 4 GiB only the 64-bit pointer can designate the table
+		}
+		switch ptrs {
 		case 0:
-			f.Dsdt, f.Ext.Dsdt = uint32(base+dsdtOff), 0
+			f.Dsdt, f.Ext.Dsdt = uint32(dsdtAddr), 0
 		case 1:
 			// only the 64-bit pointer: legal on ACPI 2+ firmware only (older FADTs have no X_DSDT field)
 			zzverif.Assume(root.Revision >= 2)
-			f.Dsdt, f.Ext.Dsdt = 0, uint64(base+dsdtOff)
+			f.Dsdt, f.Ext.Dsdt = 0, uint64(dsdtAddr)
 		case 2:
-			f.Dsdt, f.Ext.Dsdt = uint32(base+dsdtOff), uint64(base+dsdtOff)
+			f.Dsdt, f.Ext.Dsdt = uint32(dsdtAddr), uint64(dsdtAddr)
 		}
 		dsdtPtr32, dsdtPtr64 = f.Dsdt, f.Ext.Dsdt
-		d := vfHdr(base, dsdtOff)
+		d := vfHdr(dsdtAddr, 0)
 		d.Length = uint32(vfSlotLen)
 		zzverif.Assume(d.Signature != fadtSig)
 		for t := 0; t < ne; t++ {
@@ -235,7 +246,7 @@ func Verif_C14_enumerate() {
 	}
 	// KF-C14-1 (fixed): revision >= 2 root with a FADT that only carries the 32-bit DSDT pointer
 	drv := &acpiDriver{rsdtAddr: base + vfRootOff, useXSDT: useX}
-	vfTabs = []vfTab{{addr: base + dsdtOff, length: vfSlotLen}}
+	vfTabs = []vfTab{{addr: dsdtAddr, length: vfSlotLen}}
 	var w vfCount
 	var err *kernel.Error
 	panicked := zzverif.Catch(func() { err = drv.DriverInit(&w) })
@@ -277,8 +288,8 @@ func Verif_C14_enumerate() {
 			// which pointer designates the DSDT: 32-bit for revision < 2 roots, otherwise the 64-bit one (32-bit when that is zero)
 			use64 := zzverif.And(root.Revision >= 2, dsdtPtr64 != 0)
 			ptr := zzverif.IteU64(use64, dsdtPtr64, uint64(dsdtPtr32))
-			d := vfHdr(base, dsdtOff)
-			dvalid := vfSum(base, dsdtOff, vfSlotLen) == 0
+			d := vfHdr(dsdtAddr, 0)
+			dvalid := vfSum(dsdtAddr, 0, vfSlotLen) == 0
 			dgot, dok := drv.tableMap[string(d.Signature[:])]
 			if ptr != 0 {
 				zzverif.Reach("dsdt")
